@@ -30,7 +30,8 @@ pub fn engine_for(prop: &str) -> Option<&'static dyn Engine> {
         "C07" | "C08" => Some(&crate::e1::E1),
         "C10" => Some(&crate::combo::C10),
         "C09" => Some(&crate::combo::C09),
-        "C06" | "C19" => Some(&crate::e5::E5),
+        "C06" => Some(&crate::e5::E5),
+        "C19" => Some(&crate::combo::C19),
         "C11" | "C12" | "C18" => Some(&crate::e2::E2),
         "C20" => Some(&crate::combo::C20),
         "C13" | "C14" => Some(&crate::e3::E3),
